@@ -86,6 +86,50 @@ func (p *Recorder) Run() {
 	}
 }
 
+// Carriers: sends one carrier IP per group of files, in order, each with a sub-stream of its own; the sub-stream of
+// group i is filled and closed delays[i] milliseconds later (so an earlier carrier's sub-stream can close last)
+type Carriers struct {
+	sp.BaseProcess
+	groups [][]string
+	delays []int
+}
+
+func NewCarriers(wf *sp.Workflow, name string, groups [][]string, delays []int) *Carriers {
+	p := &Carriers{BaseProcess: sp.NewBaseProcess(wf, name), groups: groups, delays: delays}
+	p.InitOutPort(p, "substream")
+	wf.AddProc(p)
+	return p
+}
+func (p *Carriers) Run() {
+	defer p.CloseAllOutPorts()
+	done := make(chan bool, len(p.groups))
+	for i, g := range p.groups {
+		carrier, err := sp.NewFileIP(fmt.Sprintf("c%d.carrier", i))
+		if err != nil {
+			p.Fail(err)
+		}
+		sub := sp.NewInPort(fmt.Sprintf("sub%d", i))
+		sub.SetProcess(p)
+		carrier.SubStream = sub
+		go func(i int, g []string) {
+			time.Sleep(time.Duration(p.delays[i]) * time.Millisecond)
+			for _, path := range g {
+				ip, err := sp.NewFileIP(path)
+				if err != nil {
+					p.Fail(err)
+				}
+				sub.Chan <- ip
+			}
+			close(sub.Chan)
+			done <- true
+		}(i, g)
+		p.OutPort("substream").Send(carrier)
+	}
+	for range p.groups {
+		<-done
+	}
+}
+
 // PRecorder: pass-through for parameter streams, logging what it receives in order
 type PRecorder struct {
 	sp.BaseProcess
@@ -258,6 +302,26 @@ func buildAndRun(d Desc) {
 				c.Out(pn)
 			}
 			procs[n.Name] = c
+		case "carriers":
+			// Paths: the members, "|" separates the groups; Values: the delay of each group's sub-stream in ms
+			groups := [][]string{{}}
+			for _, x := range n.Paths {
+				if x == "|" {
+					groups = append(groups, []string{})
+				} else {
+					groups[len(groups)-1] = append(groups[len(groups)-1], x)
+				}
+			}
+			delays := []int{}
+			for _, v := range n.Values {
+				var ms int
+				fmt.Sscan(v, &ms)
+				delays = append(delays, ms)
+			}
+			for len(delays) < len(groups) {
+				delays = append(delays, 0)
+			}
+			procs[n.Name] = NewCarriers(wf, n.Name, groups, delays)
 		case "recorder":
 			procs[n.Name] = NewRecorder(wf, n.Name)
 		case "precorder":
